@@ -145,9 +145,12 @@ func (s *Modifier) ModifyResponse(res *http.Response) error {
 			return err
 		}
 
-		if start > end {
+		if start > end || int64(start) >= info.Size() {
 			res.StatusCode = http.StatusRequestedRangeNotSatisfiable
 			return nil
+		}
+		if int64(end) >= info.Size() {
+			end = int(info.Size()) - 1
 		}
 
 		ranges = append(ranges, []int{start, end})
